@@ -1,7 +1,218 @@
-From Coq Require Import List Arith NArith.
+(** C14  A log message reaches exactly the destinations whose filters it passes.
+    Only statements; every proof is [exact <lemma of Log/FilterProofs.v>].
+    Levels and classes are the enumerator values (0 = undefined ... 6); the
+    comparison operators, the enum orders, the class texts and the declared size
+    of the class bitset are regenerated from the C++ source (Log/FilterOpsGen.v):
+    a changed operator or bitset size makes these statements unprovable. *)
+From Coq Require Import List Arith NArith Bool String.
 Import ListNotations.
-Require Import Celma.Common.Res Celma.Log.FilterOpsGen Celma.Log.FilterModel.
+Require Import Celma.Common.Res Celma.Log.FilterOpsGen Celma.Log.FilterModel Celma.Log.FilterProofs.
 
-Theorem C14_stub : forall m l c, filter_pass (FMax m) (l, c) = Ok (l <=? m).
-Proof. reflexivity. Qed.
-Print Assumptions C14_stub.
+(** Maximum-, minimum- and exact-level filters accept precisely the levels they
+    name - for every level (not only the seven enumerators) and every class. *)
+Theorem C14_filter_accepts_exactly_levels :
+  forall x l c,
+    filter_pass (FMax x) (l, c) = Ok (l <=? x) /\
+    filter_pass (FMin x) (l, c) = Ok (x <=? l) /\
+    filter_pass (FLevel x) (l, c) = Ok (l =? x).
+Proof. intros. repeat split. Qed.
+Print Assumptions C14_filter_accepts_exactly_levels.
+
+(** Class-list filter, every list of tokens (any order, repetitions, any spelling
+    text2logClass accepts): the filter can be constructed exactly when there is at
+    least one token and every token names a class other than "undefined"; it then
+    accepts precisely the classes named, for each of the seven classes. *)
+Theorem C14_filter_accepts_exactly_classes :
+  forall toks,
+    (Forall (fun t => text2logclass t <> 0) toks /\ toks <> [] ->
+       exists b, make_classes_tokens toks = Ok (FClasses b) /\ filter_wf (FClasses b) /\
+                 forall l c, c < 7 -> filter_pass (FClasses b) (l, c) = Ok (names_class toks c)) /\
+    (Exists (fun t => text2logclass t = 0) toks \/ toks = [] ->
+       make_classes_tokens toks = Err ERuntime).
+Proof. exact classes_tokens_exact. Qed.
+Print Assumptions C14_filter_accepts_exactly_classes.
+
+(** ... and from the text: every subset of the six real classes, written as the
+    comma separated list of the class names, selects exactly that subset; the empty
+    list is refused (finite domain: 64 subsets x 7 classes, by computation). *)
+Theorem C14_filter_accepts_exactly_class_subsets :
+  forall mask,
+    List.length mask = 6 ->
+    let r := make_classes (join_comma (mask_names mask)) in
+    (existsb (fun x => x) mask = true ->
+       exists f, r = Ok f /\ forall l c, c < 7 -> filter_pass f (l, c) = Ok (mask_selects mask c)) /\
+    (existsb (fun x => x) mask = false -> r = Err ERuntime).
+Proof. exact classes_subsets_exact. Qed.
+Print Assumptions C14_filter_accepts_exactly_class_subsets.
+
+(** Every class other than "undefined" can be named: the filter built from its text
+    exists and accepts exactly that class. *)
+Theorem C14_classes_parse_total :
+  forall c, 1 <= c <= 6 ->
+    exists f, make_classes (class_text c) = Ok f /\
+              forall l c', c' < 7 -> filter_pass f (l, c') = Ok (c' =? c).
+Proof. exact classes_parse_total. Qed.
+Print Assumptions C14_classes_parse_total.
+
+(** The cheap level pre-check never refuses a level of which a message passes the
+    full filters: for every history of settings (every type, parameter and duplicate
+    policy, refused settings included) on a Filters object, for every message. *)
+Theorem C14_precheck_sound :
+  forall (h : list (policy * setting)) (m : msg),
+    snd m < 7 ->
+    pass (apply_settings new_filters h) m = Ok true ->
+    process_level (apply_settings new_filters h) (fst m) = Ok true.
+Proof. exact precheck_sound. Qed.
+Print Assumptions C14_precheck_sound.
+
+(** The duplicate policy decides what a second setting of a filter type does. *)
+Theorem C14_duplicate_policy_ignore :
+  forall s fs i,
+    find_type (setting_type s) (fl fs) 0 = Some i ->
+    exists fs', check_set_filter PIgnore s fs = Ok fs' /\ fl fs' = fl fs.
+Proof. exact dup_ignore. Qed.
+Print Assumptions C14_duplicate_policy_ignore.
+
+Theorem C14_duplicate_policy_exception :
+  forall s fs i,
+    find_type (setting_type s) (fl fs) 0 = Some i ->
+    check_set_filter PException s fs = Err ERuntime.
+Proof. exact dup_exception. Qed.
+Print Assumptions C14_duplicate_policy_exception.
+
+(** replace: the new filter takes the place of the old one; when the new filter
+    cannot be constructed the call fails and (a failing call leaves the object as it
+    was) the old filter stays in effect - never a fault. *)
+Theorem C14_duplicate_policy_replace :
+  forall s fs i,
+    find_type (setting_type s) (fl fs) 0 = Some i ->
+    match make_filter s with
+    | Ok f => exists fs', check_set_filter PReplace s fs = Ok fs' /\ fl fs' = replace_nth i f (fl fs)
+    | Err e => check_set_filter PReplace s fs = Err e
+    | Fault x => False
+    end.
+Proof. exact dup_replace. Qed.
+Print Assumptions C14_duplicate_policy_replace.
+
+(** with one filter per type (invariant [FInv]) the filters in effect after a
+    replacement are the new one and the old ones of the other types *)
+Theorem C14_duplicate_policy_replace_members :
+  forall (l : list filter) i f g,
+    NoDup (map filter_type l) -> nth_error (map filter_type l) i = Some (filter_type f) ->
+    (In g (replace_nth i f l) <-> g = f \/ (In g l /\ filter_type g <> filter_type f)).
+Proof. exact replace_nth_members. Qed.
+Print Assumptions C14_duplicate_policy_replace_members.
+
+(** The policy is the configured one: after setDuplicatePolicy( p), whatever logs
+    and destinations are created and whatever filters are set afterwards, a repeated
+    setting on a log is answered as p says. *)
+Theorem C14_configured_policy_decides :
+  forall w p ops ln s i d k,
+    forallb (fun o => negb (is_policy_op o)) ops = true ->
+    let w1 := fst (run (set_policy p w) ops) in
+    find_log ln (logs w1) 0 = Some (i, d) ->
+    find_type (setting_type s) (fl (lfil (llog d))) 0 = Some k ->
+    match p with
+    | PIgnore => exists w2, step w1 (OSet (TgLog ln) s) = (w2, ROk) /\
+                   exists d2, nth_error (logs w2) i = Some d2 /\ fl (lfil (llog d2)) = fl (lfil (llog d))
+    | PException => step w1 (OSet (TgLog ln) s) = (w1, RErr ERuntime)
+    | PReplace =>
+        match make_filter s with
+        | Ok f => exists w2, step w1 (OSet (TgLog ln) s) = (w2, ROk) /\
+                   exists d2, nth_error (logs w2) i = Some d2 /\
+                              fl (lfil (llog d2)) = replace_nth k f (fl (lfil (llog d)))
+        | Err e => step w1 (OSet (TgLog ln) s) = (w1, RErr e)
+        | Fault _ => False
+        end
+    end.
+Proof. exact configured_policy_decides. Qed.
+Print Assumptions C14_configured_policy_decides.
+
+(** Every world reachable by any history of operations satisfies the invariant the
+    routing theorems need (distinct id bits and names, one filter per type, cached
+    level filter inside the list, bitsets of the declared size). *)
+Theorem C14_reachable_invariant :
+  forall ops, WInv (fst (run init_world ops)).
+Proof. intros. apply run_inv, init_world_inv. Qed.
+Print Assumptions C14_reachable_invariant.
+
+(** Routing: the deliveries of a message sent to an id mask are, as a list (each
+    exactly once, in order), the destinations d of the selected logs L, in creation
+    order, such that the message passes every filter of L and every filter of d. *)
+Theorem C14_routing_exact :
+  forall ops ids m,
+    snd m < 7 ->
+    let w := fst (run init_world ops) in
+    log_ids (logs w) ids m =
+    Ok (flat_map (fun ld =>
+          if N.testbit ids (N.of_nat (lbit ld)) && forallb (fun f => filter_accepts f m) (fl (lfil (llog ld)))
+          then map (fun d => (lname ld, dname d))
+                   (List.filter (fun d => forallb (fun f => filter_accepts f m) (fl (dfil d))) (ldests (llog ld)))
+          else []) (logs w)).
+Proof.
+  intros ops ids m H w. unfold w. rewrite routing_exact; [|apply run_inv, init_world_inv|exact H].
+  f_equal. unfold expected_deliveries, log_deliveries, selected, pass_b.
+  apply flat_map_ext. intros ld. destruct (N.testbit _ _); reflexivity.
+Qed.
+Print Assumptions C14_routing_exact.
+
+Theorem C14_routing_by_name :
+  forall ops name m,
+    snd m < 7 ->
+    let w := fst (run init_world ops) in
+    log_name (logs w) name m =
+    Ok (flat_map (fun ld => if String.eqb name (lname ld) then log_deliveries ld m else []) (logs w)).
+Proof. intros. apply routing_by_name; [apply run_inv, init_world_inv|assumption]. Qed.
+Print Assumptions C14_routing_by_name.
+
+(** discard_by_level (the test in front of the LOG_LEVEL macros): when it says
+    "discard", sending the message would have delivered it nowhere. *)
+Theorem C14_precheck_never_discards_deliverable :
+  forall ops l c,
+    c < 7 ->
+    let w := fst (run init_world ops) in
+    (forall ids, discard_id (logs w) ids l = Ok true -> log_ids (logs w) ids (l, c) = Ok []) /\
+    (forall name, discard_name (logs w) name l = Ok true -> log_name (logs w) name (l, c) = Ok []).
+Proof.
+  intros ops l c H w. split; intros x D.
+  - apply discard_id_sound; auto. apply run_inv, init_world_inv.
+  - apply discard_name_sound; auto. apply run_inv, init_world_inv.
+Qed.
+Print Assumptions C14_precheck_never_discards_deliverable.
+
+(* ------------------------------------------------------------------ *)
+(** The pinned tree violated the property in three places; witnesses on the
+    functions that mirror the pinned code (also corpus cases of the generator,
+    confirmed on the real code through the harness). *)
+
+(** 1. std::bitset< operatorAction>: the class "Operator Action" cannot be named *)
+Example C14_pinned_refuted_operator_action :
+  make_classes_pinned (class_text 6) = Err EOutOfRange /\
+  exists f, make_classes (class_text 6) = Ok f /\ filter_pass f (1, 6) = Ok true.
+Proof. split; [vm_compute; reflexivity|]. eexists. split; vm_compute; reflexivity. Qed.
+
+(** 2. every Filters constructor reset the configured policy *)
+Example C14_pinned_refuted_policy_reset :
+  ctor_policy_pinned (Some PReplace) = Some PIgnore /\ ctor_policy (Some PReplace) = Some PReplace.
+Proof. split; reflexivity. Qed.
+
+(** 3. replace with a class list that is refused: the old filter was deleted first,
+    the next pass() uses the dangling pointer *)
+Example C14_pinned_refuted_replace_dangling :
+  let '(l, e) := replace_pinned (make_filter (SClasses EmptyString)) 0 [Some (FClasses (repeat true 7))] in
+  e = Some ERuntime /\ pass_list_pinned l (1, 2) = Fault BadFree.
+Proof. vm_compute. split; reflexivity. Qed.
+
+(** Non-vacuity: a concrete history exercising replace, ignore, the cached level
+    filter and two logs. *)
+Example C14_nonvacuous :
+  let ops := [ONewLog "a"; OAddDest "a" "x"; ONewLog "b"; OAddDest "b" "y"; OAddDest "b" "z";
+              OPolicy PReplace; OSet (TgLog "a") (SMax 2); OSet (TgLog "a") (SMax 4);
+              OSet (TgDest "b" "y") (SClasses "Data,Operator Action");
+              OPolicy PIgnore; OSet (TgLog "a") (SMin 1); OSet (TgLog "a") (SMin 5)]%string in
+  let w := fst (run init_world ops) in
+  log_ids (logs w) 3 (3, 6) = Ok [("a", "x"); ("b", "y"); ("b", "z")]%string /\
+  log_ids (logs w) 3 (5, 1) = Ok [("b", "z")]%string /\
+  discard_id (logs w) 1 0 = Ok true /\ discard_id (logs w) 1 3 = Ok false /\
+  discard_id (logs w) 3 3 = Err ERuntime.
+Proof. vm_compute. repeat split; reflexivity. Qed.
